@@ -6,8 +6,7 @@ using the declarative Pythonic API with ``State`` instances, ``.to()``
 transitions, and ``@action`` / ``@guard`` / ``@service`` decorators.
 """
 
-import keyword
-from typing import Any, Dict, List, Set
+from typing import Any, Dict, List, Set, Tuple
 
 from ..builders import (
     render_class_attributes,
@@ -26,7 +25,8 @@ from ._shared import (
     generate_logger_setup,
     generate_section_header,
     pascal_case_name,
-    snake_case_name,
+    logic_decorator,
+    logic_function_names,
 )
 
 
@@ -111,6 +111,9 @@ class PythonicClassStrategy(BaseStrategy):
             parts.append(
                 self._generate_decorated_methods(
                     items=ctx.actions,
+                    names=logic_function_names(
+                        ctx.actions, ctx.guards, ctx.services
+                    ),
                     component_type="action",
                     is_async=ctx.is_async,
                     log=ctx.log,
@@ -124,6 +127,9 @@ class PythonicClassStrategy(BaseStrategy):
             parts.append(
                 self._generate_decorated_methods(
                     items=ctx.guards,
+                    names=logic_function_names(
+                        ctx.actions, ctx.guards, ctx.services
+                    ),
                     component_type="guard",
                     is_async=ctx.is_async,
                     log=ctx.log,
@@ -137,6 +143,9 @@ class PythonicClassStrategy(BaseStrategy):
             parts.append(
                 self._generate_decorated_methods(
                     items=ctx.services,
+                    names=logic_function_names(
+                        ctx.actions, ctx.guards, ctx.services
+                    ),
                     component_type="service",
                     is_async=ctx.is_async,
                     log=ctx.log,
@@ -477,6 +486,7 @@ class PythonicClassStrategy(BaseStrategy):
     @staticmethod
     def _generate_decorated_methods(
         items: Set[str],
+        names: Dict[Tuple[str, str], str],
         component_type: str,
         is_async: bool,
         log: bool,
@@ -501,12 +511,12 @@ class PythonicClassStrategy(BaseStrategy):
         code_lines: List[str] = []
 
         for original in sorted(items):
-            fn_name = snake_case_name(original)
-            if keyword.iskeyword(fn_name):
-                fn_name = f"{fn_name}_"
+            fn_name = names[(component_type, original)]
 
             # -- decorator ------------------------------------------------
-            code_lines.append(f"{indent}@{decorator}")
+            code_lines.append(
+                indent + logic_decorator(decorator, original, fn_name)
+            )
 
             # -- signature ------------------------------------------------
             # Guards are never async; actions/services may be
